@@ -36,7 +36,27 @@ def corpus_specs(ctx):
                                       "Trace": {"name": "X-Trace-Id", "in": "header", "schema": {"type": "string"}},
                                       "ReqId": {"name": "X-Request-Id", "in": "header", "schema": {"type": "string"}}}
     s["paths"]["/u"]["get"]["parameters"] = [{"$ref": "#/components/parameters/LegacyTrace"}]
+    # … and in the other order: the hyphen spelling is the one in use, the underscore spelling is component-only
+    s["components"]["parameters"]["Span"] = {"name": "X-Span-Id", "in": "header", "schema": {"type": "string"}}
+    s["components"]["parameters"]["LegacySpan"] = {"name": "X_Span_Id", "in": "header", "schema": {"type": "string"}}
+    s["components"]["parameters"]["UpperSpan"] = {"name": "X-SPAN-ID", "in": "header", "schema": {"type": "string"}}
+    s["paths"]["/shape"]["get"]["parameters"] = [{"$ref": "#/components/parameters/Span"}]
+    # one parameter NAME in several locations of one operation (flattened constructor arguments collide)
+    s["paths"]["/users/{id}/followers"] = {"get": {"operationId": "listFollowers", "parameters": [
+        {"name": "id", "in": "path", "required": True, "schema": {"type": "string"}}, {"name": "id", "in": "query", "schema": {"type": "string"}},
+        {"name": "id", "in": "header", "schema": {"type": "string"}}, {"name": "body", "in": "query", "schema": {"type": "integer"}}],
+        "responses": {"204": {"description": "none"}}},
+        "put": {"operationId": "putFollowers", "parameters": [{"name": "id", "in": "path", "required": True, "schema": {"type": "string"}}, {"name": "body", "in": "query", "schema": {"type": "integer"}}],
+                "requestBody": {"required": True, "content": {"application/json": {"schema": {"$ref": "#/components/schemas/Pet"}}}}, "responses": {"204": {"description": "none"}}}}
     out.append(("gen_ops", s))
+    # single-feature documents and random documents of the feature grammar (the corpus of C01)
+    from checks.c01 import FEATURES
+    names = sorted(FEATURES) if not ctx.quick else r.sample(sorted(FEATURES), 8)
+    for f in names:
+        out.append(("feat_" + f, FEATURES[f]))
+    import featgen
+    for i in range(6 if ctx.quick else 60):
+        out.append(("rand_%d" % i, featgen.rand_spec(r)))
     return out
 
 
@@ -50,7 +70,10 @@ def run(ctx):
     if driver_ok and ctx.build_harness(["k_gen"]):
         cases = []
         for name, spec in corpus_specs(ctx):
-            lat = LATTICE if not ctx.quick else [LATTICE[0]] + r.sample(LATTICE[1:], 7)
+            small = name.startswith(("feat_", "rand_"))
+            lat = LATTICE if not ctx.quick else [LATTICE[0]] + r.sample(LATTICE[1:], 3 if small else 7)
+            if small and not ctx.quick:
+                lat = [LATTICE[0]] + r.sample(LATTICE[1:], 11)
             for cfg in lat:
                 for mode in ("client-mod", "types"):
                     cases.append({"op": "flags.pair", "in": {"spec_name": name, "spec": spec, "mode": mode, "cfg": cfg, "base_cfg": {}}})
